@@ -208,11 +208,37 @@ def real_lifecycle_program(params):
         else:
             obs = w.mod("observers.inotify").InotifyObserver()
         watches = {}
+        counter = [0]
+
+        # sets of emitters / handlers iterate in id() order otherwise: executions would not be reproducible (DFS prefixes)
+        class DetEmitter(obs._emitter_class):
+            def __init__(self, *a, **k):
+                counter[0] += 1
+                self._det_id = counter[0]
+                super().__init__(*a, **k)
+
+            def __hash__(self):
+                return self._det_id
+
+            def __eq__(self, other):
+                return self is other
+
+        DetEmitter.__name__ = obs._emitter_class.__name__
+        DetEmitter.__qualname__ = obs._emitter_class.__qualname__
+        obs._emitter_class = DetEmitter
 
         class H(events.FileSystemEventHandler):
             def __init__(self, action=None):
                 self.action = action
                 self.n = 0
+                counter[0] += 1
+                self._det_id = counter[0]
+
+            def __hash__(self):
+                return self._det_id
+
+            def __eq__(self, other):
+                return self is other
 
             def on_any_event(self, event):
                 self.n += 1
